@@ -26,7 +26,7 @@ ID = 'C07'
 LEAN_MODULE = 'Pycel.Props.C07'
 NS = 'Pycel.Threads.'
 THEOREMS = [NS + t for t in (
-    'C07_code_isolating', 'C07_code_lazy_complete', 'C07_shared_enumeration', 'C07_frame', 'C07_step_local',
+    'C07_code_isolating', 'C07_code_lazy_complete', 'C07_code_ctx_fresh', 'C07_shared_enumeration', 'C07_frame', 'C07_step_local',
     'C07_frame_code', 'C07_isolation', 'C07_isolation_code', 'C07_isolation_prop', 'C07_isolation_two',
     'C07_global_tracker_counterexample', 'C07_global_ctx_counterexample', 'C07_shared_meta_counterexample',
     'C07_ids_depend_on_schedule', 'C07_fresh_thread', 'C07_fresh_thread_interleaved', 'C07_fresh_thread_code',
@@ -40,7 +40,12 @@ RULE = ('scenario = (workload A, workload B, schedule). Workloads: iterative (cy
         'workload lengths (quick: all j with k in {1,2,mid,completion}); thorough adds every k and random multi-switch '
         'schedules; every workload also alone on a brand-new thread, fresh and warmed-up (thread that has already '
         'evaluated other compilers), and every single public operation on a brand-new thread with the compiler built '
-        'elsewhere. Non-trivial = both threads perform bookkeeping reads and the schedule really interleaves them.')
+        'elsewhere. Added families: tolerance-driven iterative pairs with DIFFERENT tolerances/iterations (workbook '
+        'settings and evaluate(iterations=, tolerance=)), self-referencing counter cell E1=E1+1 inside the cycle, a scalar '
+        'CSE formula entered over a range (needs fit_to_range) evaluated FIRST on the thread, pairs with a switch after '
+        'EVERY tracker/context API call (finer than the property asks), three live two-thread visibility probes as cases, '
+        'and a fresh-vs-warmed-thread comparison of results. Non-trivial = both threads perform bookkeeping reads and '
+        'the schedule really interleaves them.')
 ASSUMPTIONS = [
     'scheduling granularity is one cell evaluation (entry of ExcelCompiler._evaluate); a preemption between two '
     'bytecodes of a tracker/context method, or inside `_Cell.ctr += 1`, is not exhibited by the model nor by the run',
@@ -50,12 +55,14 @@ ASSUMPTIONS = [
     'real library; cell values, the graph and the eval context live inside the compiler object and are compared only '
     'through results (oracle), not modelled',
     'two threads sharing ONE compiler are outside the property ("different compiled workbooks")',
-    'the yield point and the tracing are monkeypatches installed by the harness (class attributes of ExcelCompiler, '
-    '_IterativeEvalTracker, _ArrayFormulaContext, _Cell; dict subclass for excel_func_meta); /repo has no hook',
+    'the yield point and the tracing are monkeypatches installed by the harness on the PUBLIC surface (methods, '
+    'properties or plain attributes of the tracker / context singletons, ExcelCompiler._evaluate, _Cell.next_id; dict '
+    'subclass for excel_func_meta; logging sets wherever the todo/computed sets live); /repo has no hook. A probe that '
+    'cannot be installed is skipped (GAPS): results and pass counts are still compared with the solo run',
 ]
 TRUSTED = ['modelled, not verified: threading.local semantics (an attribute set on one thread is absent on another)',
            'the tracing monkeypatches of harness/props/c07.py']
-REQUIRED_BUCKETS = ['pair:iter+iter', 'pair:iter+array', 'pair:array+iter', 'pair:array+array', 'pair:plain+iter',
+REQUIRED_BUCKETS = ['probe', 'pair:conv', 'pair:fine', 'pair:iter+iter', 'pair:iter+array', 'pair:array+iter', 'pair:array+array', 'pair:plain+iter',
                     'pair:iter+plain', 'pair:plain+array', 'pair:array+plain', 'pair:plain+plain', 'solo:fresh',
                     'solo:warm', 'freshop:load', 'freshop:evaluate', 'freshop:set_value', 'freshop:trim_graph']
 EXHAUSTIVE = False
@@ -108,9 +115,17 @@ def _wb_iter(spec):
     ws.title = 'Sheet1'
     a = spec.get('a', '0.5')
     ws['A1'] = f'={a}*B1+1'
-    ws['B1'] = '=PASSTICK(A1)+C1'
     ws['C1'] = spec.get('c', 2)
-    ws['D1'] = '=A1+B1'
+    if spec.get('conv'):
+        # pure contraction: the TOLERANCE decides when the passes stop (pass count seen by PASSTICK)
+        ws['B1'] = '=PASSTICK(A1)+C1'
+        ws['D1'] = '=A1+B1'
+    else:
+        # E1 counts its own evaluations (never converges: the iteration CAP decides); it is read inside the cycle, so
+        # a cell wrongly recalculated within a pass, or a pass cut short, changes E1 and the PASSTICK count
+        ws['B1'] = '=PASSTICK(A1)+C1+0*E1'
+        ws['D1'] = '=A1+B1'
+        ws['E1'] = '=E1+1'
     wb.calculation.iterate = True
     wb.calculation.iterateCount = spec['iters']
     wb.calculation.iterateDelta = float(Fraction(spec['tol']))
@@ -131,6 +146,9 @@ def _wb_array(spec):
     ws['E1'] = ArrayFormula('E1:F3', '=IFERROR(1/(A1:A3-2),-1)')
     ws['G1'] = ArrayFormula('G1:G2', '=IF(A1:A3>1,A1:A3,B1:B3)')
     ws['H1'] = '=IF(A1>1,B2,E3)+INDEX(G1:G2,2,1)'
+    # a scalar entered over a range: only fit_to_range (reading the context pushed for THIS formula) makes it 3 rows
+    ws['I1'] = ArrayFormula('I1:I3', f'=A1*{k + 4}')
+    ws['J1'] = '=SUM(I1:I3)+I2'
     return wb
 
 
@@ -159,7 +177,7 @@ def _wb_meta(spec):
 
 
 _WB = {'iter': _wb_iter, 'array': _wb_array, 'plain': _wb_plain, 'meta': _wb_meta}
-_EVAL_ALL = {'iter': [S + 'A1', S + 'D1'], 'array': [S + 'C1', S + 'E1:F3', S + 'H1'],
+_EVAL_ALL = {'iter': [S + 'A1', S + 'D1'], 'array': [S + 'J1', S + 'C1', S + 'E1:F3', S + 'H1'],
              'plain': [S + 'A5', S + 'A4'], 'meta': [S + 'C1']}
 _TMP = None
 _FILES = {}
@@ -193,7 +211,7 @@ def _new_compiler(spec):
 def _saved_file(spec, ext):
     """serialise the workload's model once (on a helper thread that has evaluated it), return the path"""
     global _TMP
-    base = {k: v for k, v in spec.items() if k in ('kind', 'iters', 'tol', 'a', 'c', 'k', 'vals', 'v')}
+    base = {k: v for k, v in spec.items() if k in ('kind', 'iters', 'tol', 'a', 'c', 'k', 'vals', 'v', 'conv')}
     base['load'] = 'excel' if _tick(spec) else ext
     key = _spec_key(base) + ext
     if key not in _FILES:
@@ -299,6 +317,11 @@ class _TState:
         self.results = None
         self.tracing = True
         self.in_api = 0
+        self.fine = False      # yield after every bookkeeping API call as well (finer than cell evaluation)
+
+    def sched_fine(self):
+        if self.fine and self.sched is not None and self.tracing:
+            self.sched.yield_point(self)
 
     def name(self, obj):
         k = id(obj)
@@ -328,43 +351,137 @@ def _addr_tok(a):
     return str(a).split('!')[-1].replace(' ', '_')
 
 
+GAPS = []          # probes that could not be installed (the run then relies on result-level observation for them)
+
+
+def _gap(what, exc=None):
+    GAPS.append(what if exc is None else f'{what}: {type(exc).__name__}: {exc}')
+
+
+class LogSet(set):
+    """the tracker's todo / computed sets: accesses that do NOT come through the tracker API (code reaching into the
+    namespace directly) are traced as operations of their own; unknown accesses become unknown operations"""
+    kind = 'todo'
+
+    def _log(self, what, c=None, res=None):
+        st = _st()
+        if st is not None and not st.in_api:
+            st.log.append((what if c is None else f'{what}:{st.name(c)}', res))
+
+    def add(self, c):
+        self._log({'todo': 'wip', 'computed': 'calced'}.get(self.kind, '?add-' + self.kind), c)
+        set.add(self, c)
+
+    def discard(self, c):
+        self._log({'todo': 'untodo', 'computed': 'uncalced'}.get(self.kind, '?discard-' + self.kind), c)
+        set.discard(self, c)
+
+    def remove(self, c):
+        self._log('?remove-' + self.kind, c)
+        set.remove(self, c)
+
+    def clear(self):
+        self._log('?clear-' + self.kind)
+        set.clear(self)
+
+    def __contains__(self, c):
+        r = set.__contains__(self, c)
+        self._log('isc' if self.kind == 'computed' else '?in-' + self.kind, c, 'T' if r else 'F')
+        return r
+
+
+def _namespaces(obj):
+    """the objects that may hold the state of a tracker/context singleton, however it is stored"""
+    import inspect
+    out = []
+    for name in ('ns', '_ns'):
+        try:
+            static = inspect.getattr_static(type(obj), name, None)
+            if isinstance(static, property):
+                continue             # evaluating a lazy property here would change what a fresh thread looks like
+            v = getattr(obj, name, None)
+        except Exception:   # noqa
+            continue
+        if v is not None and all(v is not x for x in out):
+            out.append(v)
+    out.append(obj)
+    return out
+
+
+def _ensure_logsets(obj, extra=None):
+    """replace every plain `set` reachable from the singleton's namespace(s) by a LogSet of the same content, in the
+    place where it lives (instance dict, or the class if it is a class-level default shared by all threads)"""
+    try:
+        for ns in ([extra] if extra is not None else []) + _namespaces(obj):
+            inst = getattr(ns, '__dict__', {})
+            for k, v in list(inst.items()):
+                if type(v) is set:
+                    ls = LogSet(v)
+                    ls.kind = k
+                    setattr(ns, k, ls)
+            for klass in type(ns).__mro__:
+                if klass.__module__ in ('builtins', '_thread', 'threading', '_threading_local'):
+                    continue
+                for k, v in list(vars(klass).items()):
+                    if type(v) is set and k not in inst:
+                        ls = LogSet(v)
+                        ls.kind = k
+                        setattr(klass, k, ls)
+    except Exception as exc:   # noqa
+        if not any(g.startswith('logsets') for g in GAPS):
+            _gap('logsets', exc)
+
+
+class _LoggedAttr:
+    """data descriptor put in place of a PLAIN class attribute of a singleton's class (e.g. a value kept on the
+    process-wide object instead of the per-thread namespace): reads are traced like the property they stand for"""
+
+    def __init__(self, name, default, tok, render):
+        self.name, self.default, self.tok, self.render = name, default, tok, render
+        self.slot = '_c07_' + name
+
+    def __get__(self, obj, owner=None):
+        if obj is None:
+            return self.default
+        v = obj.__dict__.get(self.slot, self.default)
+        st = _st()
+        if st is not None and not st.in_api:
+            st.log.append((self.tok(st), self.render(v)))
+            st.sched_fine()
+        return v
+
+    def __set__(self, obj, v):
+        st = _st()
+        if st is not None and not st.in_api:
+            st.log.append((f'?set-{self.name}', None))
+        obj.__dict__[self.slot] = v
+
+
 def install():
+    """install the yield point and the tracing.  Every probe is installed on the PUBLIC surface of the tracker / the
+    array context, whatever kind of attribute it is (function, property, plain value); a probe that cannot be
+    installed is recorded in GAPS and never raises: results and pass counts are still compared."""
     global _INSTALLED
     if _INSTALLED:
         return
     _INSTALLED = True
     _install_plugin()
     import importlib
+    import inspect
     from pycel import excelcompiler, excelutil
-    from pycel.excelformula import ExcelFormula
-    from pycel.lib import function_helpers as fh
-    T = excelutil._IterativeEvalTracker
-    A = excelutil._ArrayFormulaContext
+    MISSING = object()
 
-    def wrap_read(fn, tok, render):
-        def w(self, *args):
-            st = _st()
-            if st is None or st.in_api:
-                return fn(self, *args)
-            op = tok(st, *args)
-            st.in_api += 1
-            try:
-                r = fn(self, *args)
-            except Exception as exc:   # noqa
-                st.log.append((op, '!' + type(exc).__name__))
-                raise
-            finally:
-                st.in_api -= 1
-            st.log.append((op, render(r)))
-            return r
-        return w
-
-    def wrap_write(fn, tok):
+    def wrap_call(fn, tok, render, owner_obj):
         def w(self, *args, **kw):
             st = _st()
             if st is None or st.in_api:
                 return fn(self, *args, **kw)
-            op = tok(st, *args, **kw)
+            if owner_obj == 'tracker':
+                _ensure_logsets(self)
+            try:
+                op = tok(st, *args, **kw)
+            except Exception:   # noqa  (signature changed)
+                op = '?' + getattr(fn, '__name__', 'op')
             st.in_api += 1
             try:
                 r = fn(self, *args, **kw)
@@ -373,83 +490,83 @@ def install():
                 raise
             finally:
                 st.in_api -= 1
-            st.log.append((op, None))
+            try:
+                res = None if render is None else render(r)
+            except Exception:   # noqa
+                res = '?'
+            st.log.append((op, res))
+            st.sched_fine()
             return r
         return w
 
-    class LogSet(set):
-        """the tracker's todo / computed sets: accesses that do NOT come through the tracker API (code reaching into
-        `iterative_eval_tracker.ns` directly) are traced as operations of their own"""
-        kind = 'todo'
-        __hash__ = None
-
-        def _log(self, what, c=None, res=None):
-            st = _st()
-            if st is not None and not st.in_api:
-                st.log.append((what if c is None else f'{what}:{st.name(c)}', res))
-
-        def add(self, c):
-            self._log('wip' if self.kind == 'todo' else 'calced', c)
-            set.add(self, c)
-
-        def discard(self, c):
-            self._log('untodo' if self.kind == 'todo' else 'uncalced', c)
-            set.discard(self, c)
-
-        def remove(self, c):
-            self._log('?remove-' + self.kind, c)
-            set.remove(self, c)
-
-        def clear(self):
-            self._log('?clear-' + self.kind)
-            set.clear(self)
-
-        def __contains__(self, c):
-            r = set.__contains__(self, c)
-            self._log('isc' if self.kind == 'computed' else '?in-todo', c, 'T' if r else 'F')
-            return r
-
-    orig_ns = T.ns.fget
-
-    def ns(self):
-        n = orig_ns(self)
-        st = _st()
-        if st is not None:
-            for k in ('todo', 'computed'):
-                cur = getattr(n, k, None)
-                if type(cur) is set:
-                    ls = LogSet(cur)
-                    ls.kind = k
-                    setattr(n, k, ls)
-        return n
-    T.ns = property(ns)
+    def probe(cls, name, tok, render, owner_obj):
+        """wrap cls.<name> whatever it is"""
+        try:
+            static = inspect.getattr_static(cls, name, MISSING)
+            if static is MISSING:
+                return _gap(f'{cls.__name__}.{name} does not exist')
+            if isinstance(static, property):
+                setattr(cls, name, property(wrap_call(static.fget, tok, render, owner_obj), static.fset, static.fdel))
+            elif inspect.isfunction(static):
+                setattr(cls, name, wrap_call(static, tok, render, owner_obj))
+            elif isinstance(static, (classmethod, staticmethod)):
+                _gap(f'{cls.__name__}.{name} is a {type(static).__name__}')
+            elif render is not None:
+                setattr(cls, name, _LoggedAttr(name, static, tok, render))      # plain value
+            else:
+                _gap(f'{cls.__name__}.{name} is not callable')
+        except Exception as exc:   # noqa
+            _gap(f'{cls.__name__}.{name}', exc)
 
     b = lambda r: 'T' if r else 'F'   # noqa
-    T.__call__ = wrap_write(T.__call__, lambda st, iterations=100, tolerance=0.001:
-                            f'call:{int(iterations)}:{_tol_tok(tolerance)}')
-    T.inc_iteration_number = wrap_write(T.inc_iteration_number, lambda st: 'inc')
-    T.wip = wrap_write(T.wip, lambda st, c: f'wip:{st.name(c)}')
-    T.calced = wrap_write(T.calced, lambda st, c: f'calced:{st.name(c)}')
-    T.is_calced = wrap_read(T.is_calced, lambda st, c: f'isc:{st.name(c)}', b)
-    T.tolerance = property(wrap_read(T.tolerance.fget, lambda st: 'tol', lambda r: 't' + _tol_tok(r)))
-    T.done = property(wrap_read(T.done.fget, lambda st: 'done', b))
-    A.__call__ = wrap_write(A.__call__, lambda st, a: f'cc:{_addr_tok(a)}')
-    A.__enter__ = wrap_write(A.__enter__, lambda st: 'en')
-    A.__exit__ = wrap_write(A.__exit__, lambda st, *a: 'ex')
-    A.ctx_address = property(wrap_read(A.ctx_address.fget, lambda st: 'top', lambda r: 'a' + _addr_tok(r)))
+    try:
+        T = type(excelutil.iterative_eval_tracker)
+        probe(T, '__call__', lambda st, iterations=100, tolerance=0.001:
+              f'call:{int(iterations)}:{_tol_tok(tolerance)}', None, 'tracker')
+        probe(T, 'inc_iteration_number', lambda st: 'inc', None, 'tracker')
+        probe(T, 'wip', lambda st, c: f'wip:{st.name(c)}', None, 'tracker')
+        probe(T, 'calced', lambda st, c: f'calced:{st.name(c)}', None, 'tracker')
+        probe(T, 'is_calced', lambda st, c: f'isc:{st.name(c)}', b, 'tracker')
+        probe(T, 'tolerance', lambda st: 'tol', lambda r: 't' + _tol_tok(r), 'tracker')
+        probe(T, 'done', lambda st: 'done', b, 'tracker')
+        static_ns = inspect.getattr_static(T, 'ns', MISSING)
+        if isinstance(static_ns, property):
+            orig_ns = static_ns.fget
 
-    orig_next = excelcompiler._Cell.next_id.__func__
+            def ns(self):
+                n = orig_ns(self)
+                if _st() is not None:
+                    _ensure_logsets(self, extra=n)
+                return n
+            T.ns = property(ns, static_ns.fset, static_ns.fdel)
+        else:
+            _ensure_logsets(excelutil.iterative_eval_tracker)      # class-level / instance-level sets, right away
+    except Exception as exc:   # noqa
+        _gap('tracker', exc)
+    try:
+        A = type(excelutil.in_array_formula_context)
+        probe(A, '__call__', lambda st, a: f'cc:{_addr_tok(a)}', None, 'ctx')
+        probe(A, '__enter__', lambda st: 'en', None, 'ctx')
+        probe(A, '__exit__', lambda st, *a: 'ex', None, 'ctx')
+        probe(A, 'ctx_address', lambda st: 'top', lambda r: 'a' + _addr_tok(r), 'ctx')
+    except Exception as exc:   # noqa
+        _gap('ctx', exc)
 
-    def next_id(cls):
-        st = _st()
-        r = orig_next(cls)
-        if st is not None:
-            st.log.append(('nid', None))
-            st.ids.append(r - st.sched.ctr_base)
-        return r
-    excelcompiler._Cell.next_id = classmethod(next_id)
+    try:
+        orig_next = excelcompiler._Cell.next_id.__func__
 
-    orig_eval = excelcompiler.ExcelCompiler._evaluate
+        def next_id(cls):
+            st = _st()
+            r = orig_next(cls)
+            if st is not None:
+                st.log.append(('nid', None))
+                st.ids.append(r - st.sched.ctr_base)
+            return r
+        excelcompiler._Cell.next_id = classmethod(next_id)
+    except Exception as exc:   # noqa
+        _gap('_Cell.next_id', exc)
+
+    orig_eval = excelcompiler.ExcelCompiler._evaluate      # the yield point itself: without it nothing can run
 
     def _evaluate(self, address):
         st = getattr(threading.current_thread(), 'c07', None)
@@ -478,15 +595,20 @@ def install():
                     st.log.append((f'mread:{self.fname}', 'c-' if owner is None else f'c{owner}'))
             return v
 
-    for mname in ExcelFormula.default_modules + (PLUGIN,):
-        mod = importlib.import_module(mname)
-        for name, obj in list(vars(mod).items()):
-            meta = getattr(obj, fh.FUNC_META, None) if callable(obj) else None
-            if isinstance(meta, dict) and not isinstance(meta, MetaDict) and \
-                    getattr(obj, '__module__', None) == mod.__name__:
-                md = MetaDict(meta)
-                md.fname = name
-                setattr(obj, fh.FUNC_META, md)
+    try:
+        from pycel.excelformula import ExcelFormula
+        from pycel.lib import function_helpers as fh
+        for mname in tuple(ExcelFormula.default_modules) + (PLUGIN,):
+            mod = importlib.import_module(mname)
+            for name, obj in list(vars(mod).items()):
+                meta = getattr(obj, fh.FUNC_META, None) if callable(obj) else None
+                if isinstance(meta, dict) and not isinstance(meta, MetaDict) and \
+                        getattr(obj, '__module__', None) == mod.__name__:
+                    md = MetaDict(meta)
+                    md.fname = name
+                    setattr(obj, fh.FUNC_META, md)
+    except Exception as exc:   # noqa
+        _gap('FUNC_META', exc)
 
 
 # ---------------------------------------------------------------------------------------------------------------
@@ -551,16 +673,32 @@ class Sched:
 
 
 def _fin_tok():
-    from pycel.excelutil import in_array_formula_context, iterative_eval_tracker
-    t = vars(iterative_eval_tracker._ns)
-    c = vars(in_array_formula_context._ns)
+    """snapshot of this thread's bookkeeping at the end of its workload, read the way the library reads it"""
+    from pycel.excelutil import in_array_formula_context as ctx
+    from pycel.excelutil import iterative_eval_tracker as trk
+    MISSING = object()
+    tn = getattr(trk, 'ns', None)
+    cn = getattr(ctx, 'ns', None)
 
-    def o(d, k, f):
-        return f(d[k]) if k in d else '-'
-    return 'fin(%s,%s,%s,%s,%s,%s)' % (
-        o(t, 'iteration_number', str), o(t, 'iterations', str), o(t, 'tolerance', _tol_tok),
-        o(t, 'todo', lambda s: str(len(s))), o(t, 'computed', lambda s: str(len(s))),
-        o(c, 'ctx_addresses', lambda s: str(len(s))))
+    def o(ns, k, f, alt=None):
+        v = getattr(ns, k, MISSING) if ns is not None else MISSING
+        if v is MISSING and alt is not None:
+            v = alt()
+        try:
+            return '-' if v is MISSING else f(v)
+        except Exception:   # noqa
+            return '?'
+    st = _st()
+    if st is not None:
+        st.in_api += 1
+    try:
+        return 'fin(%s,%s,%s,%s,%s,%s)' % (
+            o(tn, 'iteration_number', str), o(tn, 'iterations', str),
+            o(tn, 'tolerance', _tol_tok), o(tn, 'todo', lambda x: str(len(x))),
+            o(tn, 'computed', lambda x: str(len(x))), o(cn, 'ctx_addresses', lambda x: str(len(x))))
+    finally:
+        if st is not None:
+            st.in_api -= 1
 
 
 def run_scenario(specs, slices):
@@ -598,6 +736,7 @@ def _run_scenario(specs, slices):
 
     def body(t):
         st = states[t]
+        st.fine = bool(specs[t].get('fine'))
         threading.current_thread().c07 = st
         spec = dict(specs[t])
         try:
@@ -641,6 +780,9 @@ def _run_tagged(spec, load):
                 cw = load(w)
                 for op in w['ops']:
                     _do_op(cw, op)
+            st_ = getattr(threading.current_thread(), 'c07', None)
+            if st_ is not None:
+                st_.ticks = 0          # pass counts are those of the workload proper
         c = spec['_compiler'] if '_compiler' in spec else load(spec)
         results.append('loaded')
         for op in spec['ops']:
@@ -679,7 +821,20 @@ def _specs(case):
     return {i: case[k] for i, k in enumerate(('A', 'B')) if case.get(k)}
 
 
+def _probe(what):
+    """live two-thread visibility probes of harness/tablegen/c07.py, as cases of their own"""
+    from harness.tablegen import c07 as tg
+    if what == 'tracker':
+        return 'isolated' if tg.probe_tracker()[0] else 'shared'
+    local, _, fresh_ok = tg.probe_ctx()
+    if what == 'ctx':
+        return 'isolated' if local or not fresh_ok else 'shared'
+    return 'isolated' if fresh_ok else 'shared'
+
+
 def impl(case):
+    if 'probe' in case:
+        return _probe(case['probe']) + ' ## {}'
     specs = _specs(case)
     runs = run_scenario(specs, case.get('slices', []))
     res = {str(t): dict(results=runs[t]['results'], ticks=runs[t]['ticks']) for t in runs}
@@ -687,6 +842,8 @@ def impl(case):
 
 
 def model_lines(case):
+    if 'probe' in case:
+        return [f'c07 placement {case["probe"]}']
     specs = _specs(case)
     toks = ['c07', 'run'] + [f'{t}:{"*" if n is None else n}' for t, n in case.get('slices', [])]
     for t in (0, 1):
@@ -705,8 +862,16 @@ def governed(case):
 
 
 def oracles(results):
+    alone_by_spec = {}
     for r in results:
         case = r.case
+        if 'probe' in case:
+            if not r.impl.startswith('isolated'):
+                yield case, {'tracker': 'what one thread does through iterative_eval_tracker is visible to another thread',
+                             'ctx': 'the array-formula context of one thread is visible to / disturbed by another thread',
+                             'ctxfresh': 'the first `with in_array_formula_context(addr)` of a brand-new thread does '
+                                         'not see addr'}[case['probe']]
+            continue
         if ' ## ' not in r.impl:
             yield case, f'scenario did not run: {r.impl[:200]}'
             continue
@@ -723,9 +888,23 @@ def oracles(results):
                              f'{mine["results"]} vs {alone["results"]}')
             elif mine['ticks'] != alone['ticks']:
                 yield case, f'thread {t} ({spec["kind"]}) pass count {mine["ticks"]} differs from solo {alone["ticks"]}'
+        if len(specs) == 1:
+            # a thread that has never used the library gets what a warmed-up thread gets
+            sp = specs[0]
+            key = _spec_key({k: v for k, v in sp.items() if k != 'warm'})
+            alone_by_spec.setdefault(key, []).append((bool(sp.get('warm')), res['0'], case))
+    for key, runs in alone_by_spec.items():
+        fresh_ = [x for x in runs if not x[0]]
+        warm_ = [x for x in runs if x[0]]
+        if fresh_ and warm_ and (fresh_[0][1]['results'] != warm_[0][1]['results'] or
+                                 fresh_[0][1]['ticks'] != warm_[0][1]['ticks']):
+            yield fresh_[0][2], (f'brand-new thread gives {fresh_[0][1]["results"]} (passes {fresh_[0][1]["ticks"]}), '
+                                 f'a warmed-up thread {warm_[0][1]["results"]} (passes {warm_[0][1]["ticks"]})')
 
 
 def finding_key(case, impl_out, model_out):
+    if 'probe' in case:
+        return None
     specs = _specs(case)
     if len(specs) == 2 and all(s['kind'] == 'meta' for s in specs.values()):
         return 'funcmeta.name_space.shared'
@@ -733,6 +912,8 @@ def finding_key(case, impl_out, model_out):
 
 
 def nontrivial(case):
+    if 'probe' in case:
+        return True
     specs = _specs(case)
     if len(specs) < 2:
         return True
@@ -741,6 +922,8 @@ def nontrivial(case):
 
 
 def bucket(case):
+    if 'probe' in case:
+        return 'probe'
     if case.get('bucket'):
         return case['bucket']
     specs = _specs(case)
@@ -754,16 +937,25 @@ def bucket(case):
 
 def _iter_spec(iters, tol, a='0.5', load='excel', extra_ops=True):
     if extra_ops:
-        ops = [['eval', S + 'A1'], ['set', S + 'C1', 5], ['eval', S + 'A1']]
+        ops = [['eval', S + 'A1'], ['set', S + 'C1', 5], ['eval', S + 'A1'], ['eval', S + 'E1']]
     else:
         ops = [['eval', S + 'A1'], ['eval', S + 'D1']]
     return {'kind': 'iter', 'iters': iters, 'tol': tol, 'a': a, 'load': load, 'ops': ops}
 
 
+def _conv_spec(tol, a='0.5', c=2, kw=False):
+    """tolerance-driven iterative workload; kw: settings passed to evaluate() instead of taken from the workbook"""
+    if kw:
+        return {'kind': 'iter', 'conv': True, 'iters': 100, 'tol': '1/1000', 'a': a, 'c': c,
+                'ops': [['eval_kw', S + 'A1', 60, tol], ['eval', S + 'D1']]}
+    return {'kind': 'iter', 'conv': True, 'iters': 60, 'tol': tol, 'a': a, 'c': c,
+            'ops': [['eval', S + 'A1'], ['eval', S + 'D1']]}
+
+
 def _array_spec(k=2, load='excel'):
     return {'kind': 'array', 'k': k, 'load': load,
-            'ops': [['eval', S + 'C1'], ['eval', S + 'E1:F3'], ['eval', S + 'H1'], ['set', S + 'A2', 7],
-                    ['eval', S + 'C1']]}
+            'ops': [['eval', S + 'J1'], ['eval', S + 'C1'], ['eval', S + 'E1:F3'], ['eval', S + 'H1'],
+                    ['set', S + 'A2', 7], ['eval', S + 'C1'], ['eval', S + 'I1:I3']]}
 
 
 def _plain_spec(v=1, load='excel'):
@@ -776,30 +968,35 @@ def _meta_spec(v):
     return {'kind': 'meta', 'v': v, 'ops': [['eval', S + 'C1'], ['set', S + 'A1', v + 1], ['eval', S + 'C1']]}
 
 
-def _pair_cases(a, b, tier, rng, light=False):
+def _pair_cases(a, b, tier, rng, light=False, jstep=6, ks_fixed=None, bucket_=None):
     na, nb = n_yields(a), n_yields(b)
     thorough = tier == 'thorough'
     js = list(range(1, na + 2))           # na+1: B entirely after A
     if light and not thorough:
-        js = sorted(set(js[::6] + [1, na]))
+        js = sorted(set(js[::jstep] + [1, na]))
+    tag = {'bucket': bucket_} if bucket_ else {}
     for j in js:
-        if thorough:
-            ks = list(range(1, nb + 1))
+        if ks_fixed is not None and not thorough:
+            ks = ks_fixed
+        elif thorough and light:
+            ks = sorted(set(range(1, nb + 1, 6)) | set(ks_fixed or []) | {1, nb})
+        elif thorough:
+            ks = list(range(1, nb + 1)) if nb <= 45 else sorted(set(range(1, nb + 1, 2)) | {1, 2, nb})
         elif light:
             ks = [max(1, nb // 2)]
         else:
             ks = [1 if j % 2 else max(1, nb // 2)]       # alternate: B stops after 1 evaluation / half way
         for k in [None] + ks:
-            yield {'A': a, 'B': b, 'slices': [[0, j], [1, k], [0, None], [1, None]]}
+            yield dict({'A': a, 'B': b, 'slices': [[0, j], [1, k], [0, None], [1, None]]}, **tag)
     # B first, A inside B's first evaluations (thread start order reversed)
-    yield {'A': a, 'B': b, 'slices': [[1, 1], [0, None], [1, None]]}
+    yield dict({'A': a, 'B': b, 'slices': [[1, 1], [0, None], [1, None]]}, **tag)
     # ping-pong at every yield point, and random multi-switch schedules
-    yield {'A': a, 'B': b, 'slices': [[t, 1] for _ in range(max(na, nb) + 1) for t in (0, 1)]}
+    yield dict({'A': a, 'B': b, 'slices': [[t, 1] for _ in range(max(na, nb) + 1) for t in (0, 1)]}, **tag)
     for _ in range(6 if thorough else 1):
         sl = []
         for _ in range(rng.randint(3, 8)):
             sl.append([rng.randint(0, 1), rng.randint(1, 4)])
-        yield {'A': a, 'B': b, 'slices': sl}
+        yield dict({'A': a, 'B': b, 'slices': sl}, **tag)
 
 
 def cases(tier, rng):
@@ -811,6 +1008,8 @@ def cases(tier, rng):
     ar1, ar2 = _array_spec(2), _array_spec(3)
     pl1, pl2 = _plain_spec(1), _plain_spec(6)
     kinds = {'iter': [it1, it2, it3], 'array': [ar1, ar2], 'plain': [pl1, pl2]}
+    for what in ('tracker', 'ctx', 'ctxfresh'):
+        yield {'probe': what}
 
     # --- every single public operation on a brand-new thread (compiler built and prepared on another thread)
     def fresh(spec, bucket_, **kw):
@@ -858,6 +1057,17 @@ def cases(tier, rng):
                   (dict(pl1, load='yml'), dict(ar2, load='json')), (dict(it1, load='pkl'), dict(pl2, load='pkl'))]
     for a, b in extra:
         yield from _pair_cases(a, b, tier, rng, light=True)
+    # --- tolerance-driven iterative pairs with DIFFERENT tolerances: the looser one starts (or passes an iteration
+    #     boundary) while the tighter one is in the middle of a pass, and the other way round
+    tight, tight_kw = _conv_spec('1/10000'), _conv_spec('1/100000', kw=True)
+    loose, loose_kw = _conv_spec('1/4', a='0.25', c=3), _conv_spec('1/2', a='0.25', c=3, kw=True)
+    for a, b in ((tight, loose_kw), (loose, tight_kw), (tight_kw, loose), (it1, loose_kw)):
+        yield from _pair_cases(a, b, tier, rng, light=True, jstep=4, ks_fixed=[1], bucket_='pair:conv')
+    # --- finer than the property's granularity: a switch after EVERY tracker / array-context API call as well
+    arf, plf, itf = dict(ar1, fine=True), dict(pl1, fine=True), dict(it3, fine=True)
+    for a, b in ((arf, plf), (arf, dict(ar2, fine=True)), (itf, arf)):
+        yield from _pair_cases(a, b, tier, rng, light=True, jstep=1 if b is plf else 5, ks_fixed=[2],
+                               bucket_='pair:fine')
     # --- CELL over a reference in both workloads (FUNC_META['name_space'] is module-level)
     m1, m2 = _meta_spec(10), _meta_spec(700)
     nm = n_yields(m1)
